@@ -121,3 +121,9 @@ MUTANTS4 += [
     M("c17-seq-alts-no-reset", "C17", [(SUBH, "            if res:\n                return res\n            self._reset(mark)\n        return None\n",
                                         "            if res:\n                return res\n        self._reset(mark)\n        return None\n")], mention="R-combinators"),
 ]
+
+MUTANTS4 += [
+    # the D43 repair taken back in the generator only (the shipped parser keeps the long form)
+    M("c17-compact-form-with-invalid", "C17",
+      [(GEN, "                and not self.invalidvisitor.visit(node.rhs)\n", "")], mention="compact-form-without-invalid"),
+]
